@@ -81,7 +81,7 @@ def _chunk_worker(args):
 
 
 def run_batch(engine_mod, engine_fn_name, prop, verif_seed, engine_name, n_runs, workers=None, wall_cap_s=None,
-              sample_idx=(0, 1, 2), extra=None, stop_on_violations=25):
+              sample_idx=(0, 1, 2), extra=None, stop_on_violations=25, counts=None):
     """Run indices 0..n_runs-1 on forked workers.  Returns list of results sorted by i (possibly fewer than n_runs if the
     wall cap was hit: then 'truncated' is reported by the caller)."""
     workers = workers or min(16, os.cpu_count() or 1)
@@ -118,7 +118,7 @@ def run_batch(engine_mod, engine_fn_name, prop, verif_seed, engine_name, n_runs,
                 pending.pop(fut)
                 rs = fut.result()  # raises BrokenProcessPool -> harness error
                 results.extend(rs)
-                nviol += sum(1 for r in rs if r.get('violation'))
+                nviol += sum(1 for r in rs if r.get('violation') and (counts is None or counts(r)))
                 stop = (wall_cap_s is not None and time.time() - t0 > wall_cap_s) or nviol >= stop_on_violations
                 if stop:
                     truncated = True
